@@ -186,6 +186,17 @@ HISTORY = {
     "C04/K4-m1": ("missed", "NOT CAUGHT by C04's check (record offsets are not part of a frame's fields); reported by C05's check (TestFetch / TestPool / TestMutatedSets: offsets of records in compacted v2 batches)"),
     "C06/K6-m1": ("missed", "conn call kind assignment: the opaque bytes of a SyncGroup answer (through the verif wrapper of the unexported operation) are kept as handed out and compared only when every call of the case is over"),
     "C09/K3-m1": ("missed", "reader stratum commit-flood: interval commits go on while the commit loop sits in an unanswered OffsetCommit until the queue (QueueCapacity 1-3) is full and CommitMessages itself blocks; then its context ends"),
+    # round 11 (L): one change per property
+    "C01/L1-m1": ("missed", "wsim: NotEnoughReplicasAfterAppend (20) among the temporary produce error codes"),
+    "C15/L1-m1": ("missed", "failing JoinGroup / SyncGroup answers that take about as long as JoinGroupBackoff (apiFault.DelayMs). The evaluation run first reported it through c15/heartbeats-missing-before-next, which was a false alarm of a saturated machine (corrected: beatFloor)"),
+    "C02/L2-m1": ("missed", "partitions with an open transaction: the fake reports the last stable offset to every consumer (it did so for read_committed ones only), the reader starts exactly there"),
+    "C04/L4-m1": ("missed", "NOT CAUGHT by C04's check (the Writer's conversion of messages to records is not a frame codec); reported by C05's check (produce-null-vs-empty/writer)"),
+    "C20/L5-m1": ("missed", "entry client-raw: the mutated Produce frames also through Client.RawProduce"),
+    "C06/L6-m1": ("missed", "NOT CAUGHT: a ReadMessage on a Batch after its Close (compressed set closed early) reads from a buffer that went back to the pool; C06 never touches a Batch again once it closed it"),
+    "C07/L7-m1": ("missed", "wsim: messages with explicit Message.Time values that are not monotonic in submission order"),
+    "C18/L7-m1": ("missed", "NOT CAUGHT: needs a mechanism of more than 8 round trips; the reference server speaks PLAIN and SCRAM only"),
+    "C09/L8-m1": ("missed", "reader stratum setoffset-loop: Close while the application keeps calling SetOffset (C10's check reported it too, as a data race on Reader.cancel)"),
+    "C12/L10-m1": ("missed", "NOT CAUGHT, by decision: C12's histories now also send rawproduce.Request (step flag raw), but the change only shows when metadata names a leader id that is absent from its own broker list; brokers report such a partition with leader -1, and the fake does what brokers do"),
 }
 
 
